@@ -8,3 +8,7 @@ _d = os.path.join(os.path.dirname(os.path.abspath(__file__)), "checks.d")
 for _f in sorted(os.listdir(_d)):
     if _f.endswith(".json"):
         CHECKS[_f[:-5]] = json.load(open(os.path.join(_d, _f)))
+
+# properties whose harness is still under construction: not registered in MANIFEST.json, not built by `vf setup`
+_nr = os.path.join(os.path.dirname(os.path.abspath(__file__)), "not_ready.txt")
+NOT_READY = set(open(_nr).read().split()) if os.path.exists(_nr) else set()
